@@ -425,11 +425,18 @@ func runHistory(self, work string, h History) (res HistResult) {
 		gzLines = append(gzLines, nil)
 	}
 	for si, stg := range h.Stages {
-		job := Job{Root: cache, Seed: stg.Seed, Random: stg.Random, Barrier: stg.Barrier, MaxMs: 60000}
+		job := Job{Root: cache, Seed: stg.Seed, Random: stg.Random, Barrier: stg.Barrier, MaxMs: 300000}
 		faulty := make([]bool, len(stg.Procs))
 		for pi, p := range stg.Procs {
 			p.Spec.Cache = cache
 			p.Spec.Mods = h.Mods
+			if p.Spec.Chunk < 0 { // a few chunks whatever the size of the zip: bounded number of crash points
+				mx := 0
+				for _, mi := range infos {
+					mx = max(mx, len(mi.zip))
+				}
+				p.Spec.Chunk = mx/(-p.Spec.Chunk) + 1
+			}
 			job.Procs = append(job.Procs, p)
 			for _, f := range p.Spec.Faults {
 				if f.Kind != "" && f.Kind != "none" {
@@ -626,7 +633,7 @@ func fetchOps(mod int) []Op {
 }
 
 func cleanStage(seed uint64, mod int) Stage {
-	return Stage{Seed: seed, Procs: []ProcJob{{Spec: ChildSpec{Seed: seed, Chunk: 300, Threads: [][]Op{{{Kind: "fetch", Mod: mod}, {Kind: "fromcache", Mod: mod}, {Kind: "modfile", Mod: mod}}}}}}}
+	return Stage{Seed: seed, Procs: []ProcJob{{Spec: ChildSpec{Seed: seed, Chunk: -3, Threads: [][]Op{{{Kind: "fetch", Mod: mod}, {Kind: "fromcache", Mod: mod}, {Kind: "modfile", Mod: mod}}}}}}}
 }
 
 func crashStage(seed uint64, mod, k int) Stage {
@@ -652,7 +659,7 @@ func genConcurrent(id string, rng *common.Rng, withCrash bool) History {
 		st := Stage{Random: true, Barrier: true, Seed: rng.Next()}
 		np := 1 + rng.Intn(3)
 		for p := 0; p < np; p++ {
-			cs := ChildSpec{Seed: rng.Next(), Delay: rng.Bool(), Chunk: []int{0, 100, 300, 1000}[rng.Intn(4)]}
+			cs := ChildSpec{Seed: rng.Next(), Delay: rng.Bool(), Chunk: []int{0, -2, -3, -5, 1000}[rng.Intn(5)]}
 			ng := 1 + rng.Intn(3)
 			for g := 0; g < ng; g++ {
 				var ops []Op
@@ -738,9 +745,9 @@ func orchMain(args []string) int {
 	} else {
 		shapes := []int{int(seed % 3)}
 		if tier == "thorough" {
-			shapes = []int{0, 1, 2}
+			shapes = []int{int(seed % 3), int((seed + 1) % 3), int((seed + 2) % 3)}
 		}
-		for _, sh := range shapes {
+		for si, sh := range shapes {
 			mods := []ModSpec{shape(sh, "v0.0.1")}
 			// probe: number of crash points of a clean fetch
 			probe := runHistory(self, work, History{ID: fmt.Sprintf("probe%d", sh), Kind: "clean", Mods: mods, Stages: []Stage{cleanStage(seed, 0), cleanStage(seed+1, 0)}})
@@ -762,11 +769,15 @@ func orchMain(args []string) int {
 				hs = append(hs, History{ID: fmt.Sprintf("f%d.%d", sh, fi), Kind: "fault", Mods: mods, Stages: []Stage{st, cleanStage(rng.Next(), 0)}})
 			}
 			// pairs of crash points: second crash during the recovery run
-			if npairs != 0 {
+			np := npairs
+			if np < 0 && si > 0 {
+				np = 300 // all pairs for the primary shape only, a sample for the others
+			}
+			if np != 0 {
 				cnt := 0
 				for k1 := 1; k1 <= n; k1++ {
 					for k2 := 1; k2 <= n; k2++ {
-						if npairs > 0 && !rng.Chance(npairs, n*n) {
+						if np > 0 && !rng.Chance(np, n*n) {
 							continue
 						}
 						cnt++
